@@ -106,7 +106,7 @@ class Ctx:
 
     def fn(self, qualname: str, rule: str) -> FuncInfo:
         f = self.model.fn(qualname, rule)
-        self.functions_analysed.add(qualname)
+        self.functions_analysed.add(f.qualname)
         return f
 
 
